@@ -11,6 +11,9 @@ carried by code shape, and necessary for the equality:
   NOSNAP    restore without a snapshot empties the live vector (the model's 'empties the stack when there is none').
   NOPANIC   none of the operations contains an explicit panic site (panic!, unreachable!, assert!, unwrap, expect);
             debug assertions are allowed.
+  AGREE     test and update agree: pop decrements the remaining-originals count only under `==` of that same count with
+            the length before the pop; restore truncates to the value it compared with the live length and reads no
+            snapshot entry but its own; every consuming path of clear_snapshot adjusts the popped vector.
 
 Not decided: which elements are kept in `popped` and replayed by restore, i.e. everything that distinguishes
 `drain(a..b)` from `truncate(n)` - the one seeded change no rule catches (DESIGN.md section 12)."""
@@ -28,11 +31,14 @@ MANIFEST = {
             "are private and written only by Stack's methods; push, peek, len and is_empty act on the live vector only and "
             "pop returns the live vector's pop; snapshot creates exactly one snapshot entry and restore / clear_snapshot "
             "consume exactly one on every path, no other operation does; restore without a snapshot empties the stack; no "
-            "operation contains an explicit panic site. It does not decide which elements are recorded in `popped`, merged "
+            "operation contains an explicit panic site; the counts that are tested are the counts that are updated "
+            "(pop's recording guard, restore's truncation, restore reading only its own entry, clear_snapshot adjusting "
+            "`popped` on every consuming path). It does not decide which elements are recorded in `popped`, merged "
             "by clear_snapshot or replayed by restore - the index arithmetic that makes the contents equal the model's.",
     "note": "A partial claim. The model equality over all histories is an invariant proof about cache / popped / lengths "
             "arithmetic and is declined (DESIGN.md section 6); a change confined to that arithmetic (clear_snapshot "
-            "drain -> truncate, seeded three times) is not detected.",
+            "drain -> truncate, seeded three times) is not detected; four other seeded changes of the arithmetic are "
+            "detected through the AGREE clauses.",
 }
 
 
@@ -195,6 +201,107 @@ def run(rep, tier):
         if nonepaths == 0 or not ok:
             r3.violation("restore:none", where(rs["body"]), "on the path where there is no snapshot, restore does not "
                          "clear the live vector: the model empties the stack there")
+
+    # ---------------------------------------------------------------- AGREE
+    r5 = rep.rule("C11.AGREE", 3,
+                  "test and update agree: pop decrements the remaining-originals count of the latest snapshot only under a "
+                  "test of that same count against the length before the pop; restore truncates the live vector to the value "
+                  "it compared with the live length; restore consults no snapshot entry but the one it consumed; every path "
+                  "of clear_snapshot that consumed an entry adjusts the popped vector")
+
+    def same_place(a, b):
+        a, b = peel(a), peel(b)
+        if kind(a) == "Path" and kind(b) == "Path" and a.get("res") == "local" and b.get("res") == "local":
+            return a["id"] == b["id"]
+        pa, pb = hirq.place(a), hirq.place(b)
+        return pa is not None and pb is not None and pa[1] == pb[1] and pa[2] == pb[2]
+
+    def conds_of(ctx, node):
+        out = []
+        for g in ctx.guards(node):
+            if g[0] == "if" and g[2] is True:
+                out.append(peel(g[1]))
+            elif g[0] == "guard":
+                out.append(peel(g[1]))
+        res = []
+        for cnd in out:
+            stack = [cnd]
+            while stack:
+                x = peel(stack.pop())
+                if kind(x) == "Binary" and x["op"] == "&&":
+                    stack += [x["l"], x["r"]]
+                else:
+                    res.append(x)
+        return res
+    if pop is not None:
+        ctx = hirq.Ctx(pop)
+        lets = hirq.lets(pop["body"])
+        decs = [x for x in walk(pop["body"]) if kind(x) == "AssignOp" and x.get("op") in ("-=", "-") and hirq.lit_value(peel(x["r"])) == 1]
+        r5.instance("pop:guard", where(pop["body"]), "%d decrements" % len(decs))
+        if not decs:
+            r5.violation("pop:guard", where(pop["body"]), "pop no longer decrements a remaining-originals count")
+        for dcr in decs:
+            ok = False
+            for cnd in conds_of(ctx, dcr):
+                if kind(cnd) == "Binary" and cnd["op"] == "==":
+                    for (x, y) in ((cnd["l"], cnd["r"]), (cnd["r"], cnd["l"])):
+                        if same_place(x, dcr["l"]):
+                            other = peel(y)
+                            d = 0
+                            while d < 4 and kind(other) == "Path" and other.get("res") == "local" and other["id"] in lets:
+                                other = peel(lets[other["id"]][0])
+                                d += 1
+                            if kind(other) == "MethodCall" and other["m"] == "len" and vec_field(other["recv"]) == live:
+                                ok = True
+            if not ok:
+                r5.violation("pop:guard", where(dcr), "the count pop decrements (`%s`) is not the one it compared with the "
+                             "length before the pop (`==`): elements that are not originals of the snapshot are recorded, "
+                             "or originals are not" % hirq.expr_text(dcr["l"]))
+    if rs is not None:
+        ctx = hirq.Ctx(rs)
+        truncs = [x for x in walk(rs["body"]) if kind(x) == "MethodCall" and x["m"] == "truncate" and vec_field(x["recv"]) == live]
+        r5.instance("restore:truncate", where(rs["body"]), "%d truncations of the live vector" % len(truncs))
+        for tr in truncs:
+            for cnd in conds_of(ctx, tr):
+                if kind(cnd) == "Binary" and cnd["op"] in ("<", ">", "<=", ">="):
+                    sides = [peel(cnd["l"]), peel(cnd["r"])]
+                    lens = [s for s in sides if kind(s) == "MethodCall" and s["m"] == "len" and vec_field(s["recv"]) == live]
+                    if lens:
+                        other = sides[1] if sides[0] is lens[0] else sides[0]
+                        if not same_place(other, tr["args"][0]):
+                            r5.violation("restore:truncate", where(cnd), "restore compares `%s` with the live length but "
+                                         "truncates to `%s`: when they differ the originals are replayed on top of elements "
+                                         "pushed since the snapshot" % (hirq.expr_text(other), hirq.expr_text(tr["args"][0])))
+        others = [x for x in walk(rs["body"]) if kind(x) in ("MethodCall", "Index") and not any("debug_assert" in e for e in (x.get("exp") or []))
+                  and ((kind(x) == "MethodCall" and vec_field(x["recv"]) == snap and x["m"] not in ("pop", "is_empty", "len"))
+                       or (kind(x) == "Index" and vec_field(x["base"]) == snap))]
+        r5.instance("restore:local", where(rs["body"]))
+        for x in others:
+            r5.violation("restore:local", where(x), "restore reads another snapshot's entry (%s): the model reinstates the "
+                         "latest copy only, whatever the older snapshots recorded" % hirq.expr_text(x)[:60])
+    cs = methods.get("clear_snapshot")
+    if cs is not None:
+        popped_fields = [f["name"] for f in fields if f["name"] not in (live, snap)]
+        r5.instance("clear:adjust", where(cs["body"]))
+        for (ev, out) in exits(PathEnum(cs).paths()):
+            consumed = False
+            for e in ev:
+                if e.kind == "cond" and kind(peel(e.node)) == "LetExpr" and e.extra is True and any(
+                        kind(x) == "MethodCall" and x["m"] == "pop" and vec_field(x["recv"]) == snap for x in walk(e.node)):
+                    consumed = True
+                if e.kind == "arm":
+                    vs = hirq.pat_variants(e.node["arms"][e.extra]["pat"])
+                    if any(v.endswith("Option::Some") for v in vs) and any(
+                            kind(x) == "MethodCall" and x["m"] == "pop" and vec_field(x["recv"]) == snap for x in walk(e.node["scrut"])):
+                        consumed = True
+            if not consumed:
+                continue
+            if not any(e.kind == "call" and kind(e.node) == "MethodCall" and e.node["m"] in ("drain", "truncate", "split_off", "clear")
+                       and vec_field(e.node["recv"]) in popped_fields for e in ev):
+                r5.violation("clear:adjust", where(cs["body"]), "a path of clear_snapshot consumes a snapshot entry without "
+                             "adjusting the popped vector: what the cleared snapshot recorded stays behind and is replayed "
+                             "by an ancestor's restore")
+                break
 
     # ---------------------------------------------------------------- NOPANIC
     r4 = rep.rule("C11.NOPANIC", 6, "no operation of Stack contains an explicit panic site (debug assertions excepted)")
